@@ -78,9 +78,16 @@ def _finish(ctx, accept, what):
                 elif verdict == "violation":
                     ctx.res["witness_failures"].append(f"symbolic run accepts but the real constructor raised: {detail}")
         return
-    desc = ctx._describe(m, what)
-    desc["expect"] = dict(raises="*")
     from symx import replay
+
+    # the deciding model need not be a realisable image (overlapping views): ask for one that is
+    try:
+        mr = ctx._solve_realisable([bad])
+        desc = ctx._describe(mr if mr is not None else m, what)
+    except (core.Inconclusive, replay.Unrealisable) as ex:
+        ctx.res["inconclusive"].append(f"{what}: the solver has a counterexample but no replayable image was built ({ex})")
+        return
+    desc["expect"] = dict(raises="*")
 
     verdict, detail = replay.run_replay(desc)
     if verdict == "violation":
